@@ -33,7 +33,9 @@ namespace GeographicLib {
       y0 = y,
       z0 = z,
       mul = 1;
-    while (Q >= mul * fabs(An)) {
+    // (isfinite test: with an infinite argument Q = An = inf and the loop would
+    // never end)
+    while (Q >= mul * fabs(An) && isfinite(An)) {
       // Max 6 trips
       real lam = sqrt(x0)*sqrt(y0) + sqrt(y0)*sqrt(z0) + sqrt(z0)*sqrt(x0);
       An = (An + lam)/4;
@@ -138,7 +140,9 @@ namespace GeographicLib {
       mul = 1,
       mul3 = 1,
       s = 0;
-    while (Q >= mul * fabs(An)) {
+    // (isfinite test: with an infinite argument Q = An = inf and the loop would
+    // never end)
+    while (Q >= mul * fabs(An) && isfinite(An)) {
       // Max 7 trips
       real
         lam = sqrt(x0)*sqrt(y0) + sqrt(y0)*sqrt(z0) + sqrt(z0)*sqrt(x0),
@@ -188,7 +192,9 @@ namespace GeographicLib {
       z0 = z,
       mul = 1,
       s = 0;
-    while (Q >= mul * fabs(An)) {
+    // (isfinite test: with an infinite argument Q = An = inf and the loop would
+    // never end)
+    while (Q >= mul * fabs(An) && isfinite(An)) {
       // Max 7 trips
       real lam = sqrt(x0)*sqrt(y0) + sqrt(y0)*sqrt(z0) + sqrt(z0)*sqrt(x0);
       s += 1/(mul * sqrt(z0) * (z0 + lam));
